@@ -86,6 +86,20 @@ CHECKS = {
              "quotes in the option set (their own non-idempotence is C02's finding D37).",
         technique="TLA+ model checking (TLC) of the Ellipses machine + exhaustive string replay + on/off differential trace validation (TypoTrace.tla)",
         design="§6 C09, §12"),
+    "C10": dict(
+        level="model_checking",
+        text="spec/Transforms.tla states Unbold as a function on the preorder node sequence of a document and SpacingProp on what a reader "
+             "sees (blank-line gaps between consecutive non-blank lines; per list: item count, single-block items, tightness). Documents = "
+             "every realisable list-bearing document of the bounded Render model, 20 heading shapes with every mix of emphasis, and the "
+             "construct-rich corpus; each is formatted with cleanups off/on and list-spacing preserve/loose/tight under other option "
+             "settings. TLC evaluates on every observation: flat(tree(on)) = Unbold(flat(tree(off))); non-blank lines identical, blank "
+             "lines differ only directly before list items, loose => every list with >= 2 items reads loose, tight => every list whose "
+             "items hold one block reads tight and no blank line is added.",
+        note="Trusted: real marko parse of both outputs; harness recognition of blank lines / list-item lines. The Unbold/Spacing "
+             "functions are evaluated by TLC on recorded observations (no exhaustive state exploration beyond the Render model that "
+             "supplies the documents).",
+        technique="TLA+ functions (Transforms.tla) evaluated by TLC on on/off observations of model-enumerated documents",
+        design="§6 C10, §12"),
     "C11": dict(
         level="model_checking",
         text="TLC explores every behaviour of spec/SentenceWrap.tla (one action per sentence of line_wrap_by_sentence, inner greedy "
